@@ -24,6 +24,7 @@ EXPLANATION = (
     "PauliTerm.from_iterable; tuples restored for bitstrings, layers and connectivity. "
     "(D2p) a loader that branches on the source's type treats every kind of path its ensure_open-based siblings accept (str / os.PathLike) as a path; (D5o) no one-sided comparison decides whether an imaginary part is negligible."
     ' Round 4: presence of a scalar record member is not decided by its truthiness; a loop over fixed member names examines every name; (D6) savers, loaders and record converters keep no module-level state and store nothing on their arguments.'
+    ' Round 5: save_list stores the list as given; optional members are not splatted positionally from a filtered sequence; (D7) the operator reader re-assembles through simplify(), decided by C03-D5.'
 )
 RULE_TEXT = "instances = record keys per saver/loader pair, loaders, printer tokens, slots; distinct by (rule, construct)"
 ASSUMPTIONS = [
